@@ -513,6 +513,8 @@ def normalize_model_rec(r):
     for key in ("ign", "cons", "starts", "ends", "escale", "sws", "plr", "plf", "nw", "ew"):
         r.setdefault(key, [])
     r.setdefault("cov", [1, 1])
+    r.setdefault("covlen", [0, 1])     # [0, 1] = length coverage not requested
+    r.setdefault("elen", [])           # edge lengths parallel to edges (NONE = attribute absent), [] = no lengths
     r.setdefault("cons_kind", "edge")
     r.setdefault("opt", {})
     r.setdefault("faults", {})
